@@ -27,6 +27,7 @@ import sys
 sys.setrecursionlimit(10000)
 
 MAX_PATHS = 60000
+PROMOTED_RE = re.compile(r'promoted: Some\(promoted\[(\d+)\]\)')
 
 
 def canon(path):
@@ -361,9 +362,12 @@ class Evaluator:
         k = pl[0]
         if k == 'local':
             n = lkey(pl)
-            if n in st.env:
-                return st.env[n]
-            return ('param', pl[1]) if len(pl) == 2 else ('param', pl[1], pl[2])
+            base = st.env[n] if n in st.env else (('param', pl[1]) if len(pl) == 2 else ('param', pl[1], pl[2]))
+            if st.fenv:
+                ov = tuple(sorted(((kk[1], vv) for kk, vv in st.fenv.items() if kk[0] == n), key=lambda x: str(x[0])))
+                if ov:
+                    return ('upd', base, ov)
+            return base
         if k == 'pfield':
             key = self.fkey(pl)
             if key is not None and key in st.fenv:
@@ -432,15 +436,44 @@ class Evaluator:
         if k == 'const':
             if o.get('fn'):
                 return ('fnptr', canon(o['fn']['path']))
+            m = PROMOTED_RE.search(o.get('dbg', ''))
+            if m:
+                pv = self.promoted_value(st, int(m.group(1)))
+                if pv is not None:
+                    return pv
             if 'val' in o:
                 return ('const', o['ty'], o['val'])
             return ('const', o['ty'], o['dbg'])
         return ('unknown', o.get('dbg'))
 
+    def promoted_value(self, st, idx):
+        """value of the idx-th promoted constant of the current body: evaluate its (straight-line) MIR"""
+        body = st.body or self.body
+        proms = body.j.get('promoted') or []
+        if idx >= len(proms):
+            return None
+        cache = body.__dict__.setdefault('_promcache', {})
+        if idx in cache:
+            return cache[idx]
+        pb = Body(dict(proms[idx], key=body.key + '::{promoted#%d}' % idx), body.facts)
+        ps = Evaluator(pb, 0).run()
+        val = None
+        if ps and len(ps) == 1 and ps[0].ret is not None:
+            val = ps[0].ret
+            # `&_1` with snapshot: expose the referent
+            if val[0] in ('ref', 'rawptr') and len(val) > 2 and val[2] is not None:
+                val = ('ref', ('promoted', idx), val[2])
+        cache[idx] = val
+        return val
+
     def mkref(self, st, kind, pl):
         # reborrow collapse: &*v -> v
         if pl[0] == 'deref':
             return pl[1]
+        if pl[0] == 'promoted':
+            pv = self.promoted_value(st, pl[1])
+            if pv is not None:
+                return pv
         snap = None
         if self.rooted_local(pl):
             snap = self.read_place(st, pl, len(st.events))
